@@ -56,6 +56,8 @@ CALLS = [
     ('p-int12', "bitstring.pack('int:12', 12)"),
     # option-sensitive tokens that are not at the start of the string
     ('c-lit-e4m3', "bitstring.Bits('0b1, e4m3mxfp=1000.0')"), ('c-sp-e4m3', "bitstring.Bits(' e4m3mxfp = 1000.0')"), ('c-rep-e5m2', "bitstring.BitArray('2*(e5m2mxfp8=-1e6)')"),
+    # an option-sensitive token nested inside the value of a bits token
+    ('c-nested-e4m3', "bitstring.Bits('bits=e4m3mxfp=1e9')"), ('c-nested-e5m2', "bitstring.BitArray('bits:8=e5m2mxfp=1e9, 0b1')"),
     ('a-trail2', "bitstring.Array('uint4', [1], trailing_bits='0b1')"), ('c-0a0b', "bitstring.Bits('0x0a0b')"), ('c-0b1', "bitstring.ConstBitStream('0b1')"),
 ]
 CALL_SRC = dict(CALLS)
